@@ -103,7 +103,7 @@ type Custom struct {
 
 type User struct {
 	UserID, Username, Email, FullName, GivenName, Surname string
-	Custom                                               []Custom
+	Custom                                                []Custom
 }
 
 // AuthReq is a stored authentication request.
